@@ -88,13 +88,13 @@ const extIndex = graphsync.ExtensionName("duo/index")
 
 // Snapshot of both sides' self-reported state at one quiescent point.
 type Snapshot struct {
-	After      string
-	ReqDiag    []string
-	RespDiag   []string
-	ReqStates  map[int]string
-	RespStates map[int]string
+	After                                          string
+	ReqDiag                                        []string
+	RespDiag                                       []string
+	ReqStates                                      map[int]string
+	RespStates                                     map[int]string
 	ReqActive, ReqPending, RespActive, RespPending []int
-	HeldReq, HeldResp                             int // executions the harness itself is holding inside a gate right now (independent of what the node reports)
+	HeldReq, HeldResp                              int // executions the harness itself is holding inside a gate right now (independent of what the node reports)
 }
 
 // Event is an entry of the ordered log the judges reason over.
@@ -117,22 +117,22 @@ type ReqOutcome struct {
 }
 
 type Result struct {
-	Skip       bool
-	Panic      string
-	Hung       bool
-	B          *dagen.Built
-	Reqs       []*ReqOutcome
-	Store      map[cid.Cid][]byte         // requestor's shared store at the end
-	KeyStores  map[int]map[cid.Cid][]byte // per dedup-key stores
-	Snapshots  []Snapshot
-	Events     []Event
-	Sent       []*sim.Envelope
-	FinalStats [2]graphsync.Stats
-	Labels     map[string]bool
-	MaxRunReq  int // most requestor executions in progress at once (processing listener .. end)
-	MaxRunResp int
+	Skip              bool
+	Panic             string
+	Hung              bool
+	B                 *dagen.Built
+	Reqs              []*ReqOutcome
+	Store             map[cid.Cid][]byte         // requestor's shared store at the end
+	KeyStores         map[int]map[cid.Cid][]byte // per dedup-key stores
+	Snapshots         []Snapshot
+	Events            []Event
+	Sent              []*sim.Envelope
+	FinalStats        [2]graphsync.Stats
+	Labels            map[string]bool
+	MaxRunReq         int // most requestor executions in progress at once (processing listener .. end)
+	MaxRunResp        int
 	MaxRunRespPerPeer int
-	APIHung    []string // API calls that never returned
+	APIHung           []string // API calls that never returned
 	// RerequestWhileActive[i]: a re-sent New request for i (same id, after a requestor pause) was
 	// delivered while the responder still had the earlier response's task active
 	// RespHookPeers / BlockHookPeers: how often the requestor's response / block hooks were invoked, per peer argument
@@ -141,12 +141,13 @@ type Result struct {
 	// ThirdHookLive: hook invocations with the third peer as sender for a request that the requestor still
 	// listed when the intruding message was delivered (a response for a request that has ended reaches the
 	// hooks whoever sends it, and cannot affect anything)
-	ThirdHookLive  int
-	BlockHookSawThird int // block hook calls whose response data carried the third peer's marker extension
-	SentToThirdLive int // messages the requestor sent to the third peer in reaction to such a message
-	Intrusions     int // intruding messages actually delivered
-	IntrudedLive   int // ... while one of the targeted requests was still listed by the requestor
-	IntrudedPaused int // ... while one of them was listed as paused
+	ThirdHookLive        int
+	ThirdAsGenuine       int // response-hook calls for a live request that were handed the third peer's response under another sender
+	BlockHookSawThird    int // block hook calls whose response data carried the third peer's marker extension
+	SentToThirdLive      int // messages the requestor sent to the third peer in reaction to such a message
+	Intrusions           int // intruding messages actually delivered
+	IntrudedLive         int // ... while one of the targeted requests was still listed by the requestor
+	IntrudedPaused       int // ... while one of them was listed as paused
 	RerequestWhileActive map[int]bool
 	// CrossDedup[i]: a response for i listed a link as present without its bytes although the bytes had
 	// only ever been transmitted for another request (the responder's cross-request de-duplication)
@@ -300,7 +301,12 @@ func RunWith(t *testing.T, c Case, st *Stores) *Result {
 		var mu sync.Mutex
 		byIDm := map[graphsync.RequestID]int{}
 		setID := func(id graphsync.RequestID, i int) { mu.Lock(); byIDm[id] = i; mu.Unlock() }
-		getID := func(id graphsync.RequestID) (int, bool) { mu.Lock(); defer mu.Unlock(); i, ok := byIDm[id]; return i, ok }
+		getID := func(id graphsync.RequestID) (int, bool) {
+			mu.Lock()
+			defer mu.Unlock()
+			i, ok := byIDm[id]
+			return i, ok
+		}
 		wireSeen := 0
 		noteWire := func() {
 			mu.Lock()
@@ -335,13 +341,28 @@ func RunWith(t *testing.T, c Case, st *Stores) *Result {
 		})
 		w.AddScripted(scen.ThirdID)
 		intrudeLive := map[graphsync.RequestID]bool{}
+		var loopGate chan struct{}
+		thirdHook, thirdAsGenuine := map[graphsync.RequestID]int{}, map[graphsync.RequestID]int{}
 		rq.GS.RegisterIncomingResponseHook(func(p peer.ID, rd graphsync.ResponseData, ha graphsync.IncomingResponseHookActions) {
 			mu.Lock()
 			res.RespHookPeers[string(p)]++
 			if p == scen.ThirdID && intrudeLive[rd.RequestID()] {
-				res.ThirdHookLive++
+				thirdHook[rd.RequestID()]++
+			}
+			if _, marked := rd.Extension(ExtFromThird); marked && p != scen.ThirdID && intrudeLive[rd.RequestID()] {
+				// what the third peer sent is presented to the hooks as the genuine responder's
+				thirdAsGenuine[rd.RequestID()]++
+			}
+			g := loopGate
+			if p == scen.RespID && g != nil {
+				loopGate = nil
+			} else {
+				g = nil
 			}
 			mu.Unlock()
+			if g != nil {
+				<-g // the run loop is held inside this hook (slow user code) while further messages arrive
+			}
 			if _, ok := rd.Extension(ExtTriggerError); ok {
 				ha.TerminateWithError(errors.New("response hook refuses this response"))
 			}
@@ -646,8 +667,8 @@ func RunWith(t *testing.T, c Case, st *Stores) *Result {
 				case "cancel":
 					api(desc, func() error { return in.GS.Cancel(w.Ctx, id) })
 				}
-			case "intrude":
-				if op.X == nil {
+			case "intrude", "behind":
+				if op.X == nil || (op.K == "behind" && w.Net.Peek(scen.RespID, scen.ReqID) == nil) {
 					continue
 				}
 				var rsps []gsmsg.GraphSyncResponse
@@ -684,7 +705,15 @@ func RunWith(t *testing.T, c Case, st *Stores) *Result {
 					}
 					rsps = append(rsps, gsmsg.NewResponse(id, graphsync.ResponseStatusCode(op.X.Status), md, exts...))
 				}
+				clearLive := func() {
+					mu.Lock()
+					for k := range intrudeLive {
+						delete(intrudeLive, k)
+					}
+					mu.Unlock()
+				}
 				if len(rsps) == 0 {
+					clearLive()
 					continue
 				}
 				bm := map[cid.Cid]blocks.Block{}
@@ -696,21 +725,77 @@ func RunWith(t *testing.T, c Case, st *Stores) *Result {
 					rm[r.RequestID()] = r
 				}
 				w.Net.Connect(scen.ThirdID, scen.ReqID)
+				var gate chan struct{}
+				if op.K == "behind" {
+					// the requestor's run loop is held inside a response hook by a message of the genuine
+					// responder, a second genuine message (if one is pending) queues up behind it, and the third
+					// peer's message arrives behind that one
+					gate = make(chan struct{})
+					mu.Lock()
+					loopGate = gate
+					mu.Unlock()
+					for k := 0; k < 2; k++ {
+						if pe := w.Net.Peek(scen.RespID, scen.ReqID); pe != nil {
+							checkRerequest(pe)
+							checkDedup(pe)
+							e := w.Net.Deliver(scen.RespID, scen.ReqID)
+							noteWire()
+							mu.Lock()
+							res.Events = append(res.Events, Event{K: "deliver", Seq: e.Seq, From: string(scen.RespID)})
+							mu.Unlock()
+							if k == 0 {
+								w.Wait()
+							}
+						}
+					}
+					res.Labels["third-peer-message-behind-a-held-run-loop"] = true
+				}
 				if err := w.Net.Inject(scen.ThirdID, scen.ReqID, gsmsg.NewMessage(nil, rm, bm)); err != nil {
+					if gate != nil {
+						mu.Lock()
+						loopGate = nil
+						mu.Unlock()
+						close(gate)
+					}
+					clearLive()
+					w.Wait()
 					continue
 				}
 				sentBefore := len(w.Net.SentSince(0))
 				w.Net.Deliver(scen.ThirdID, scen.ReqID)
+				if gate != nil {
+					mu.Lock()
+					loopGate = nil
+					mu.Unlock()
+					close(gate)
+				}
 				w.Wait()
+				after := rq.Impl.PeerState(scen.RespID).OutgoingState.RequestStates
 				mu.Lock()
 				for _, e := range w.Net.SentSince(sentBefore) {
 					if e.From == scen.ReqID && e.To == scen.ThirdID {
 						for _, q := range e.Msg.Requests() {
-							if intrudeLive[q.ID()] {
+							if _, still := after[q.ID()]; intrudeLive[q.ID()] && (still || op.K == "intrude") {
 								res.SentToThirdLive++
 							}
 						}
 					}
+				}
+				// hook calls count for requests that were in progress when the third peer's message was handled:
+				// with "behind", genuine messages handled just before it may have ended the request (a response
+				// naming a request that has ended reaches the hooks whoever sends it), so only requests still in
+				// progress afterwards are judged
+				for id, n := range thirdHook {
+					if _, still := after[id]; still || op.K == "intrude" {
+						res.ThirdHookLive += n
+					}
+					delete(thirdHook, id)
+				}
+				for id, n := range thirdAsGenuine {
+					if _, still := after[id]; still || op.K == "intrude" {
+						res.ThirdAsGenuine += n
+					}
+					delete(thirdAsGenuine, id)
 				}
 				for k := range intrudeLive {
 					delete(intrudeLive, k)
@@ -723,7 +808,7 @@ func RunWith(t *testing.T, c Case, st *Stores) *Result {
 				if paused {
 					res.IntrudedPaused++
 				}
-				desc = fmt.Sprintf("intrude(%v st=%d ext=%s)", op.X.Reqs, op.X.Status, op.X.Ext)
+				desc = fmt.Sprintf("%s(%v st=%d ext=%s)", op.K, op.X.Reqs, op.X.Status, op.X.Ext)
 			case "sgate":
 				sgates[i].release()
 			case "qgate":
